@@ -2,7 +2,7 @@
 """tools_keepseed.py <id> <n> <name> : copy a confirmed seeded change into /verif/seeded/<name>/ with the run record"""
 import json, os, re, shutil, sys
 pid, n, name = sys.argv[1:4]
-src = f"/tmp/seed/out-{pid}/{n}"
+src = sys.argv[4] if len(sys.argv) > 4 else f"/tmp/seed/out-{pid}/{n}"
 dst = f"/verif/seeded/{name}"
 os.makedirs(dst, exist_ok=True)
 for f in ("patch.diff", "demo.py"):
